@@ -319,7 +319,11 @@ func replayNonFunctionalIds(r *hx.Run, rnd *hx.Rand) {
 		obs := canon(sc, res)
 		seen[obs]++
 		if obs != "ok V=7.10 P=1:7+7 E=-" && obs != "ok V=7.20 P=1:7+7 E=-" {
-			r.Fail("", "two objects under one id: the report is neither of the two possible ones: "+obs)
+			what := "two objects under one id: the report is neither of the two possible ones: "
+			if res.hang {
+				what = "call-did-not-return within 10s: "
+			}
+			r.Fail("", fmt.Sprintf("%s%s gomaxprocs=%d scenario=[%s]", what, obs, 1+i%8, strings.Join(sc.lines("witness=two-objects-one-id")[1:], " | ")))
 			break
 		}
 	}
